@@ -32,6 +32,10 @@ func (d *Data) Bytes() []byte {
 	b := make([]byte, d.Len)
 	switch d.Kind {
 	case "zeros":
+	case "pad": // marker followed by 'a' padding: compresses to almost nothing
+		for i := range b {
+			b[i] = 'a'
+		}
 	case "hash": // '#' bytes without the marker: differs from the head of every other content
 		for i := range b {
 			b[i] = '#'
